@@ -75,6 +75,7 @@ def run(ctx):
     ctx.guard(r2_r3_value_returning, eff)
     ctx.guard(r4_copy_hooks)
     ctx.guard(r5_defaults)
+    ctx.guard(r6_getter_elements)
     ctx.assume("user callbacks (trans_fn, merge_fn, func of updateCoords/"
                "updatePayloads, loop bodies) are opaque: their own effects are "
                "excluded")
@@ -336,3 +337,124 @@ def r5_defaults(ctx):
                     "then shares one Payload object with the rank's stored "
                     "default, so `ref += v` on one element changes the default "
                     "of the whole rank" % text(v))
+
+
+# -- R6: elements of getter results are not edited in place --------------------
+
+_EDIT = {"append", "extend", "insert", "pop", "remove", "clear", "sort",
+         "reverse", "update", "add"}
+
+
+def _getter_aliases_elements(ctx, f, call):
+    """True when `call` is `<param>.getX()` whose (single) return builds a
+    list / tuple from stored attributes (`[r.getId() for r in self.ranks]`,
+    `self._x`): the container may be new, its elements are the stored ones."""
+    tg = ctx.ty.resolve(f, call)
+    if tg.kind not in ("resolved", "byname") or len(tg.funcs) != 1:
+        return None
+    callee = tg.funcs[0]
+    rets = pat.returns(callee)
+    if len(rets) != 1 or rets[0].value is None:
+        return None
+    v = rets[0].value
+    if isinstance(v, (ast.ListComp, ast.GeneratorExp)):
+        e = v.elt
+        if isinstance(e, ast.Call) and isinstance(e.func, ast.Attribute) and not e.args:
+            # element = accessor call: does the accessor return a stored field?
+            if _returns_stored(ctx, callee, e):
+                return callee
+        if isinstance(e, ast.Attribute):
+            return callee
+    return None
+
+
+def _returns_stored(ctx, f, call, depth=0):
+    """The no-argument accessor call returns a stored attribute (possibly
+    through further delegating accessors)."""
+    if depth > 4:
+        return False
+    for g in ctx.ty.resolve(f, call).funcs:
+        r2 = pat.returns(g)
+        if len(r2) != 1 or r2[0].value is None:
+            continue
+        v = r2[0].value
+        if isinstance(v, ast.Attribute) and isinstance(v.value, ast.Name) and \
+                g.params and v.value.id == g.params[0]:
+            return True
+        if isinstance(v, ast.Call) and isinstance(v.func, ast.Attribute) and \
+                not v.args and _returns_stored(ctx, g, v, depth + 1):
+            return True
+    return False
+
+
+def _fresh_store_dominates(f, node, base):
+    """`X[i] = <new container>` dominates the edit of X[i] (same index text)."""
+    g = cfg_of(f, assert_edges=False)
+    st = enclosing_stmt(node)
+    want = text(base)
+    for a in f.own_nodes():
+        if isinstance(a, ast.Assign) and len(a.targets) == 1 and \
+                text(a.targets[0]) == want and a is not st:
+            v = a.value
+            fresh = isinstance(v, (ast.List, ast.ListComp, ast.Dict, ast.Set)) or \
+                (isinstance(v, ast.Call) and text(v.func) in (
+                    "list", "dict", "set", "copy.deepcopy", "deepcopy", "copy.copy"))
+            if fresh and g.dominates(a, st):
+                return True
+    return False
+
+
+def r6_getter_elements(ctx):
+    n = 0
+    for f in ctx.prog.funcs.values():
+        if not f.module.rel.startswith("core/") or f.cls is None or \
+                f.cls.name not in ("Tensor", "Fiber", "Rank"):
+            continue
+        params = set(f.all_param_names())
+        for node in f.own_nodes():
+            base = None
+            if isinstance(node, ast.Call) and isinstance(node.func, ast.Attribute) \
+                    and node.func.attr in _EDIT and isinstance(node.func.value, ast.Subscript):
+                base = node.func.value
+            elif isinstance(node, ast.AugAssign) and isinstance(node.target, ast.Subscript) \
+                    and isinstance(node.op, (ast.Add, ast.BitOr)):
+                base = node.target
+            elif isinstance(node, (ast.Assign, ast.Delete)):
+                for t in node.targets:
+                    if isinstance(t, ast.Subscript) and isinstance(t.value, ast.Subscript):
+                        base = t.value
+            if base is None or not isinstance(base.value, ast.Name):
+                continue
+            x = base.value
+            if _fresh_store_dominates(f, node, base):
+                continue
+            facts, is_param = ctx.ty.facts_at(f, x.id, x)
+            for fa in facts:
+                v = fa.value if fa.kind == "expr" else None
+                if isinstance(v, ast.Call) and isinstance(v.func, ast.Attribute) and \
+                        isinstance(v.func.value, ast.Name) and v.func.value.id in params:
+                    callee = _getter_aliases_elements(ctx, f, v)
+                    if callee is None:
+                        continue
+                    n += 1
+                    ctx.bad("C10.R6", f, node,
+                            "`%s` edits in place an element of `%s = %s`: %s "
+                            "builds a new list but its elements are the stored "
+                            "objects themselves (a rank id that is already a "
+                            "list is shared), so the operand is modified and "
+                            "shares the object with the result -- copy first "
+                            "(copy.deepcopy)" % (text(node)[:60], x.id, text(v),
+                                                 callee.qual))
+    # positive control: the flatten helper edits a *deep copy* of the rank ids
+    f = ctx.method("Tensor", "_flattenRankIdsShape")
+    cp = [a for a in f.own_nodes() if isinstance(a, ast.Assign)
+          and isinstance(a.value, ast.Call)
+          and text(a.value.func) in ("copy.deepcopy", "deepcopy")
+          and a.value.args and isinstance(a.value.args[0], ast.Call)
+          and text(a.value.args[0].func).endswith("getRankIds")]
+    if cp:
+        ctx.ok("C10.R6", f, cp[0], "rank-id lists are deep-copied before the "
+               "flattened id is assembled in place")
+    elif not n:
+        raise AnalysisError("C10.R6: _flattenRankIdsShape neither deep-copies "
+                            "the rank ids nor was seen editing them in place")
